@@ -104,6 +104,7 @@ class TU:
         self.field_parent = {}   # FieldDecl id -> Record
         self.field_by_id = {}    # FieldDecl id -> Field
         self.func_ids = {}       # function name -> small positive int (code of a function pointer value)
+        self.enum_by_name = {}   # enumerator name -> value
         self._index(ast, top=True)
 
     def _index(self, node, top=False, parent_rec=None):
@@ -142,15 +143,18 @@ class TU:
                         continue
                     self.decl[e["id"]] = e
                     v = None
-                    for x in e.get("inner", []):
-                        v = const_value(x, self)
-                        if v is None:
-                            raise Unsupported("enumerator %s: non-literal initialiser" % e.get("name"))
-                    if v is None:
+                    exprs = [x for x in e.get("inner", []) if x.get("kind") and not x["kind"].endswith("Comment")
+                             and not x["kind"].endswith("Attr")]
+                    if exprs:
+                        v = const_value(exprs[0], self)
+                    elif nxt is not None:
                         v = nxt
+                    # v None: value not computable by the front end; any use raises Unsupported (see Engine.ex_DeclRefExpr)
                     self.enumval[e["id"]] = v
-                    vals.append(v)
-                    nxt = v + 1
+                    self.enum_by_name[e.get("name")] = v
+                    if v is not None:
+                        vals.append(v)
+                    nxt = v + 1 if v is not None else None
                 if c.get("name"):
                     # value range over-approximated by a 32-bit container (short enums only narrow it)
                     self.tt.enums["enum " + c["name"]] = TInt(32, any(v < 0 for v in vals), "enum " + c["name"], is_enum=True)
@@ -217,8 +221,11 @@ class TU:
         out = []
 
         def walk(n):
-            if n.get("kind") in ("ForStmt", "WhileStmt", "DoStmt"):
+            k = n.get("kind")
+            if k in ("ForStmt", "WhileStmt"):
                 out.append(n)
+            elif k == "DoStmt" and const_value(n["inner"][1], self) != 0:
+                out.append(n)         # `do { ... } while (0)` (statement-macro idiom) is not a loop
             for c in n.get("inner", []):
                 walk(c)
         walk(f)
@@ -371,9 +378,35 @@ def cut_function(src, name):
     raise Unsupported("definition of %s not found" % name)
 
 
-def parse_extract(relfile, names, prelude_file, mode_flags="host", extra_cut=()):
-    """Cut `names` (functions) verbatim out of the real file and parse them behind the prelude."""
-    key = (core.REPO, relfile, tuple(names), prelude_file)
+def cut_defines(relfile, regex):
+    """the `#define` lines of a real header whose macro name matches regex (verbatim, with continuation lines)"""
+    path = repo(relfile)
+    if not os.path.exists(path):
+        raise Unsupported("header %s missing" % path)
+    out = []
+    lines = open(path, encoding="utf-8", errors="replace").read().split("\n")
+    i = 0
+    while i < len(lines):
+        m = re.match(r"\s*#\s*define\s+(\w+)", lines[i])
+        if m and re.fullmatch(regex, m.group(1)):
+            j = i
+            while lines[j].rstrip().endswith("\\") and j + 1 < len(lines):
+                j += 1
+            out.append('#line %d "%s"' % (i + 1, path))
+            out.extend(lines[i:j + 1])
+            i = j + 1
+        else:
+            i += 1
+    if not out:
+        raise Unsupported("no #define matching %s in %s" % (regex, relfile))
+    return "\n".join(out) + "\n"
+
+
+def parse_extract(relfile, names, prelude_file, defines=()):
+    """Cut `names` (functions) verbatim out of the real file and parse them behind the prelude.
+    defines = [(header relfile, macro-name regex)]: #define lines cut verbatim from real headers, inserted at the
+    prelude's /*@CUT-DEFINES@*/ marker."""
+    key = (core.REPO, relfile, tuple(names), prelude_file, tuple(defines))
     if key in _CACHE:
         return _CACHE[key]
     path = repo(relfile)
@@ -381,9 +414,14 @@ def parse_extract(relfile, names, prelude_file, mode_flags="host", extra_cut=())
         raise Unsupported("source file %s missing" % path)
     src = open(path, encoding="utf-8", errors="replace").read()
     prelude = open(os.path.join(SHIM, prelude_file)).read()
+    cut = "".join(cut_defines(h, rx) for h, rx in defines)
+    if defines:
+        if "/*@CUT-DEFINES@*/" not in prelude:
+            raise Unsupported("prelude %s has no /*@CUT-DEFINES@*/ marker" % prelude_file)
+        prelude = prelude.replace("/*@CUT-DEFINES@*/", cut + '#line 1 "shim/%s (continued)"\n' % prelude_file)
     parts = [prelude]
     info = {"file": relfile, "prelude": "shim/" + prelude_file, "prelude_sha256": hashlib.sha256(prelude.encode()).hexdigest(),
-            "functions": {}, "dropped": "logging macro calls (LOGP/printf-like) expand to nothing: their argument "
+            "defines_cut_from": [list(d) for d in defines], "functions": {}, "dropped": "logging macro calls (LOGP/printf-like) expand to nothing: their argument "
                                          "expressions are not evaluated; everything else is the unmodified text"}
     texts = {}
     for nm in names:
@@ -403,6 +441,72 @@ def parse_extract(relfile, names, prelude_file, mode_flags="host", extra_cut=())
     tu.prelude_text = prelude
     _CACHE[key] = tu
     return tu
+
+
+_CKW = {"sizeof", "int", "unsigned", "signed", "char", "short", "long", "const", "volatile", "struct", "union", "enum"}
+
+
+def vla_bound(tu, fname, decl):
+    """Typed AST of the bound expression of a variable-length array local.
+
+    clang 14's JSON dump gives the bound only inside the type spelling (`uint16_t[len << 3]`).  To still read the
+    integer semantics off a clang AST (promotions, conversions), the spelled expression is parsed by clang itself in a
+    probe function appended to the same translation unit, whose parameters are the variables the expression names,
+    with their declared types.  Returns (expression node, {probe ParmVarDecl id: variable name})."""
+    key = (fname, decl["id"])
+    cache = tu.__dict__.setdefault("_vla", {})
+    if key in cache:
+        return cache[key]
+    q = decl["type"]["qualType"]
+    depth, start, text = 0, None, None
+    for i, ch in enumerate(q):
+        if ch == "[":
+            if depth == 0:
+                start = i
+            depth += 1
+        elif ch == "]":
+            depth -= 1
+            if depth == 0:
+                text = q[start + 1:i]
+                break
+    if not text or q[i + 1:].strip():
+        raise Unsupported("variable-length array type %r (only one variable dimension is supported)" % q)
+    names = [n for n in dict.fromkeys(re.findall(r"[A-Za-z_]\w*", text)) if n not in _CKW]
+    f = tu.function(fname)
+    params = []
+    for n in names:
+        found = []
+
+        def walk(x):
+            if x.get("kind") in ("ParmVarDecl", "VarDecl") and x.get("name") == n:
+                found.append(x)
+            for c in x.get("inner", []):
+                walk(c)
+        walk(f)
+        if len(found) != 1:
+            raise Unsupported("VLA bound %r: %s is not a unique parameter/local of %s" % (text, n, fname))
+        params.append("%s %s" % (found[0]["type"]["qualType"], n))
+    probe = "__verif_vla_probe_%s_%s" % (fname, decl.get("name", "v"))
+    src = "\nstatic void %s(%s) { (void)(%s); }\n" % (probe, ", ".join(params) or "void", text)
+    if tu.mode == "extract":
+        full = tu.source_text + src
+        args = ["-x", "c", "-I", repo("src/shared/libosmocore/include"), "-I", os.path.join(SHIM, "host", "a", "b"), "-I", SHIM, "-"]
+    else:
+        full = '#include "%s"\n%s' % (repo(tu.relfile), src)
+        args = flags(tu.mode) + ["-x", "c", "-"]
+    p = subprocess.run(["clang", "-fsyntax-only", "-Xclang", "-ast-dump=json", "-Xclang", "-ast-dump-filter=" + probe] + args,
+                       input=full, capture_output=True, text=True)
+    if p.returncode != 0 or not p.stdout.strip():
+        raise Unsupported("clang could not parse the VLA bound %r: %s" % (text, p.stderr[-500:]))
+    node = json.JSONDecoder().raw_decode(p.stdout.lstrip())[0]
+    pids = {c["id"]: c["name"] for c in node.get("inner", []) if c.get("kind") == "ParmVarDecl"}
+    body = [c for c in node["inner"] if c.get("kind") == "CompoundStmt"][0]
+    cast = body["inner"][0]
+    if cast.get("kind") != "CStyleCastExpr":
+        raise Unsupported("VLA probe shape")
+    expr = cast["inner"][0]
+    cache[key] = (expr, pids, text)
+    return cache[key]
 
 
 def check_layout(tu, items):
